@@ -122,6 +122,7 @@ fn main() {
         "random" => drivers::random(&args),
         "replay" => drivers::replay(&args),
         "natural" => drivers::natural(&args),
+        "explore" => drivers::explore(&args),
         "tree" => drivers::trees(&args),
         _ => {
             eprintln!("usage: harness <random|replay|tree> --models F --out F [--seed N] ...");
